@@ -1,5 +1,5 @@
 from . import engprop, apiprops
-CFG = apiprops.cfg("C11", ["C11_replacen", "C11_paths_agree", "C11_no_panic", "C11_vm_replacen"], [apiprops.api_extra("C11")])
+CFG = apiprops.cfg("C11", ["C11_replacen", "C11_paths_agree", "C11_no_panic", "C11_vm_replacen", "C11_vm_replacen_total"], [apiprops.api_extra("C11")])
 
 
 def run(tier, seed, replay=None):
